@@ -106,7 +106,7 @@ func runOnce(job *Job, ch vs.Chooser, trace bool) (*vs.Result, *Outcome) {
 		out, res = runC10(job.C10, cc, trace)
 	case "C05mon":
 		out, res = runC05(job.C05, cc, trace)
-	case "C18atom", "C13conc":
+	case "C18atom", "C13conc", "C04conc":
 		out, res = runC18(job.C18, cc, trace)
 	case "C03conc":
 		out, res = c03Run(job.C03, cc, trace)
@@ -114,7 +114,7 @@ func runOnce(job *Job, ch vs.Chooser, trace bool) (*vs.Result, *Outcome) {
 		out, res = c14Run(job.C14, cc, trace)
 	case "C14ctl":
 		out, res = c14CtlRun(job.C14Ctl, cc, trace)
-	case "C01conc", "C06conc", "C12conc", "C17conc":
+	case "C01conc", "C06conc", "C12conc", "C17conc", "C16conc":
 		out, res = c01Run(job.C01, cc, trace)
 	default:
 		return &vs.Result{Fatal: "unknown harness " + job.Harness}, nil
